@@ -101,6 +101,7 @@ def main():
                                             [l.split("broken:", 1)[1].strip()[:300] for l in out.split("\n") if "broken:" in l][:2]}
     finally:
         sh(["git", "-C", REPO, "checkout", "--", "."])
+        sh(["python3", os.path.join(VERIF, "tools", "regen.py")])     # Generated/*.lean back to the unpatched tree
     # evidence files were rewritten by the patched runs: restore them by re-running on the clean tree later (caller)
     dst = os.path.join(VERIF, "seeded", sid)
     os.makedirs(dst, exist_ok=True)
